@@ -1,32 +1,45 @@
 ---------------------------- MODULE MC_IsapKey ----------------------------
 (* C06, persistence of pre-computed ISAP keys, on the symbolic instance:   *)
 (* object A is initialised from a key, its saved form is loaded into       *)
-(* object B, and back.  Invariants: the saved form is the canonical 80     *)
-(* bytes of KeyExpand(k); the loaded object is the same state term as the  *)
-(* original, so every function of the key object (IsapEncPk, IsapDecPk)    *)
-(* behaves identically.  Encrypting symbolically with ISAP is beyond TLC   *)
-(* (terms are trees, the MAC re-keying copies the whole MAC state 40       *)
-(* times), so packets are left to trace validation; "encrypt/decrypt leave *)
-(* the key unchanged" is the frame condition of the trace actions, which   *)
-(* demand bit-identical raw bytes of the real object.                      *)
+(* object B at any point of A's history, and both process the same         *)
+(* packets.  Invariants: the saved form is the canonical 80 bytes of       *)
+(* KeyExpand(k); the loaded object is the same state term as the original; *)
+(* B's output equals A's for every packet and equals the one-shot function *)
+(* of the key; decryption with either returns the plaintext.  The bit-wise *)
+(* re-keying is a free function here (see ApiIsap.RekeyOp).  "Encrypt and  *)
+(* decrypt leave the key unchanged" is the frame condition UNCHANGED pk of *)
+(* Packet; the trace spec demands bit-identical raw bytes of the real      *)
+(* object after every use.                                                 *)
 EXTENDS ApiIsap, Sym, TLC
-VARIABLES v, pkA, pkB, step
-vars == <<v, pkA, pkB, step>>
+VARIABLES v, pkA, pkB, npkt, lastA, lastB, lastM
+vars == <<v, pkA, pkB, npkt, lastA, lastB, lastM>>
 K0 == Syms("k", 0, IsapPar(v).klen)
 
-Init == v \in {"128", "128a", "80pq"} /\ step = 0 /\ pkB = <<>>
+Init == v \in {"128", "128a", "80pq"} /\ pkB = <<>> /\ npkt = 0 /\ lastA = <<>> /\ lastB = <<>> /\ lastM = <<>>
         /\ pkA = IsapKeyExpand(v, Syms("k", 0, IsapPar(v).klen))
-\* save A and load the bytes into B; then save B and load into A again (idempotence)
-SaveLoadAB == step = 0 /\ pkB' = IsapLoad(IsapSave(pkA)) /\ step' = 1 /\ UNCHANGED <<v, pkA>>
-SaveLoadBA == step = 1 /\ pkA' = IsapLoad(IsapSave(pkB)) /\ step' = 2 /\ UNCHANGED <<v, pkB>>
-Next == SaveLoadAB \/ SaveLoadBA
+\* save A at any point of its history and load the bytes into B
+SaveLoad == /\ pkB = <<>> /\ pkB' = IsapLoad(IsapSave(pkA))
+            /\ UNCHANGED <<v, pkA, npkt, lastA, lastB, lastM>>
+\* both objects process the same packet; the key objects are not changed by it (frame condition)
+Packet(adl, ml) ==
+  /\ npkt < 2
+  /\ LET N == Syms(<<"n", npkt>>, 0, 16)  A == Syms(<<"a", npkt>>, 0, adl)  M == Syms(<<"m", npkt>>, 0, ml) IN
+     /\ lastA' = IsapEncPk(v, pkA, N, A, M)
+     /\ lastB' = IF pkB = <<>> THEN <<>> ELSE IsapEncPk(v, pkB, N, A, M)
+     /\ lastM' = <<N, A, M>>
+  /\ npkt' = npkt + 1 /\ UNCHANGED <<v, pkA, pkB>>
+Next == SaveLoad \/ (\E adl \in {0, 2}, ml \in {0, 3, 9} : Packet(adl, ml))
 Spec == Init /\ [][Next]_vars
 
 Canon(pk) == [ke |-> FoldState(pk.ke), ka |-> FoldState(pk.ka)]
-\* the saved form is the canonical 2 x 40 bytes of the expanded key ...
+\* the saved form is the canonical 2 x 40 bytes of the expanded key
 SavedCanonical == IsapSave(pkA) = Ext(IsapKeyState(IsapPar(v), K0, 3), 0, 40) \o Ext(IsapKeyState(IsapPar(v), K0, 2), 0, 40)
-\* ... and a loaded key IS the original key (as a state term), hence behaves identically:
-\* IsapEncPk / IsapDecPk are functions of the key object
-LoadSaveId == (pkB # <<>>) => Canon(pkB) = Canon(pkA) /\ Canon(pkA) = Canon(IsapKeyExpand(v, K0))
-Inv == SavedCanonical /\ LoadSaveId
+\* a loaded key IS the original key (as a state term) ...
+LoadSaveId == (pkB # <<>>) => Canon(pkB) = Canon(pkA)
+\* ... and behaves identically on every packet
+SameBehaviour == (lastB # <<>>) => lastA = lastB
+OneShotAgrees == (lastM # <<>>) => lastA = IsapEnc(v, K0, lastM[1], lastM[2], lastM[3])
+RoundTrip == (lastM # <<>>) =>
+   LET r == IsapDecPk(v, IF pkB = <<>> THEN pkA ELSE pkB, lastM[1], lastM[2], lastA) IN r.ok /\ r.m = lastM[3]
+Inv == SavedCanonical /\ LoadSaveId /\ SameBehaviour /\ OneShotAgrees /\ RoundTrip
 =========================================================================
